@@ -26,6 +26,8 @@ type C06Proc struct {
 type C06Scenario struct {
 	Dirs  [][]gen.ImportFile `json:"dirs"`
 	Procs []C06Proc          `json:"procs"`
+	// Noise[d]: directory d also holds a .gitignore and ignored regular files around the sources
+	Noise []bool `json:"noise,omitempty"`
 }
 
 type C06 struct{}
@@ -53,6 +55,7 @@ func (C06) Generate(t *tape.Tape, tier string) interface{} {
 	}
 	for d := 0; d < nd; d++ {
 		sc.Dirs = append(sc.Dirs, gen.GenImportProject(t, maxFiles))
+		sc.Noise = append(sc.Noise, t.Bool(1, 4))
 	}
 	// history: every directory is cleaned at least once; second runs in the same process or after a restart
 	var first C06Proc
@@ -127,6 +130,16 @@ func (C06) Run(ctx *sim.RunCtx, data json.RawMessage) (*sim.Outcome, error) {
 			}
 			os.Chmod(p, mode)
 			state[d][f.Path] = snapEnt{Mode: mode.String(), Text: f.Text}
+		}
+		if d < len(sc.Noise) && sc.Noise[d] {
+			for name, text := range map[string]string{".gitignore": "*.iml\n*.log\n", "00_aaa.iml": "<module/>\n", "a/00_first.log": "log\n", "zz_last.log": "log\n"} {
+				p := filepath.Join(dirs[d], filepath.FromSlash(name))
+				os.MkdirAll(filepath.Dir(p), 0755)
+				os.WriteFile(p, []byte(text), 0644)
+				os.Chmod(p, 0644)
+				state[d][name] = snapEnt{Mode: os.FileMode(0644).String(), Text: text}
+			}
+			out.Faults["dir-noise"]++
 		}
 	}
 	seen := map[string]bool{}
@@ -243,6 +256,9 @@ func (C06) Run(ctx *sim.RunCtx, data json.RawMessage) (*sim.Outcome, error) {
 
 func hasRemovable(files []gen.ImportFile) bool {
 	for _, f := range files {
+		if f.Exempt {
+			continue
+		}
 		for _, im := range f.Imports {
 			if im.Role == "" && !im.Wildcard && !im.Static {
 				return true
@@ -281,6 +297,18 @@ func c06Judge(files []gen.ImportFile, before, after map[string]snapEnt, where st
 	for p := range after {
 		if _, ok := before[p]; !ok {
 			add("new-file", fmt.Sprintf("%s: new file %s", where, p))
+		}
+	}
+	javaPaths := map[string]bool{}
+	for _, f := range files {
+		javaPaths[f.Path] = true
+	}
+	for p, b := range before {
+		if javaPaths[p] {
+			continue
+		}
+		if a, ok := after[p]; !ok || a != b {
+			add("non-java-file-changed", fmt.Sprintf("%s: %s (not a Java source) changed or disappeared", where, p))
 		}
 	}
 	for _, f := range files {
@@ -343,11 +371,14 @@ func c06Judge(files []gen.ImportFile, before, after map[string]snapEnt, where st
 			}
 		}
 		for _, im := range f.Imports {
-			if im.Role == "" && !im.Wildcard && !im.Static && !delText[im.Text] {
+			if im.Role == "" && !im.Wildcard && !im.Static && !delText[im.Text] && !f.Exempt {
 				add("unused-import-kept", fmt.Sprintf("%s: %s keeps unused import %q (file %d of %d in its directory)\n%s", where, f.Path, im.Text, indexOf(files, f.Path)+1, len(files), clip(a.Text, 900)))
 			}
-			if im.Role == "" && !im.Wildcard && !im.Static {
+			if im.Role == "" && !im.Wildcard && !im.Static && !f.Exempt {
 				out.Probes["removable-import"]++
+			}
+			if f.Exempt {
+				out.Probes["import-in-filtered-file"]++
 			}
 			if im.Role != "" {
 				out.Probes["used-import:"+im.Role]++
